@@ -1,3 +1,104 @@
 import Driver.Common
-/-! stub: replaced by the owner of this driver -/
-def main : IO Unit := Driver.run () (fun s _ => (s, "bad-op"))
+import ScionVerif.Model.Combinator
+/-!
+line-protocol driver for the path-combinator model (C19, C04)
+
+request  `combine <src> <dst> <#cores> <#noncores> <segment>*`
+  segment `S <ts> <segid> <id-hex> <#entries> <entry>*`
+  entry   `E <ia> <mtu> <ingress_mtu> <exp> <cons_ingress> <cons_egress> <mac> <#peers> <peer>*`
+  peer    `P <peer_ia> <peer_if> <peer_mtu> <exp> <cons_ingress> <cons_egress> <mac>`
+  (numbers decimal, the 32-byte segment id as hex, the 6-byte MAC as a decimal number)
+response `ok tie=<0|1> cands=<n> <path>*`  or `panic <site>`
+  path    `src|dst|mtu|expiry|ia#if,ia#if,..|<seg>;<seg>..`   seg `<C|c><P|p>:segid:ts:exp.in.eg.mac/..`
+-/
+open ScionVerif.Comb Driver
+
+def hexNat (s : String) : Option Nat :=
+  s.toList.foldl (fun acc c => match acc, hexDigit c with
+    | some a, some d => some (a * 16 + d)
+    | _, _ => none) (some 0)
+
+def nat (s : String) : Option Nat := s.toNat?
+
+def parsePeers : Nat → List String → Option (List PeerE × List String)
+  | 0, ts => some ([], ts)
+  | n + 1, "P" :: a :: b :: c :: d :: e :: f :: g :: ts =>
+    match nat a, nat b, nat c, nat d, nat e, nat f, nat g with
+    | some a, some b, some c, some d, some e, some f, some g =>
+      match parsePeers n ts with
+      | some (ps, rest) => some (⟨a, b, c, ⟨d, e, f, g⟩⟩ :: ps, rest)
+      | none => none
+    | _, _, _, _, _, _, _ => none
+  | _, _ => none
+
+def parseEntries : Nat → List String → Option (List AsE × List String)
+  | 0, ts => some ([], ts)
+  | n + 1, "E" :: a :: b :: c :: d :: e :: f :: g :: np :: ts =>
+    match nat a, nat b, nat c, nat d, nat e, nat f, nat g, nat np with
+    | some a, some b, some c, some d, some e, some f, some g, some np =>
+      match parsePeers np ts with
+      | some (ps, rest) =>
+        match parseEntries n rest with
+        | some (es, rest') => some (⟨a, b, c, ⟨d, e, f, g⟩, ps⟩ :: es, rest')
+        | none => none
+      | none => none
+    | _, _, _, _, _, _, _, _ => none
+  | _, _ => none
+
+def parseSegs : Nat → List String → Option (List Seg × List String)
+  | 0, ts => some ([], ts)
+  | n + 1, "S" :: a :: b :: idh :: ne :: ts =>
+    match nat a, nat b, hexNat idh, nat ne with
+    | some a, some b, some id, some ne =>
+      match parseEntries ne ts with
+      | some (es, rest) =>
+        match parseSegs n rest with
+        | some (ss, rest') => some (⟨a, b, es, id⟩ :: ss, rest')
+        | none => none
+      | none => none
+    | _, _, _, _ => none
+  | _, _ => none
+
+def sep (s : String) (xs : List String) : String :=
+  if xs.isEmpty then "-" else s.intercalate xs
+
+def hopStr (h : HopF) : String := s!"{h.exp}.{h.ingress}.{h.egress}.{h.mac}"
+
+def segStr (s : PSeg) : String :=
+  (if s.consDir then "C" else "c") ++ (if s.peering then "P" else "p") ++
+    s!":{s.segid}:{s.ts}:" ++ sep "/" (s.hops.map hopStr)
+
+def pathStr (p : Path) : String :=
+  s!"{p.src}|{p.dst}|{p.mtu}|{p.expiry}|" ++ sep "," (p.ifs.map fun i => s!"{i.1}#{i.2}") ++ "|" ++
+    sep ";" (p.segs.map segStr)
+
+def siteStr : Site → String
+  | .weightUnderflow => "weight_underflow"
+  | .capacityUnderflow => "capacity_underflow"
+  | .peerIndex => "peer_index"
+  | .lastIa => "last_ia"
+  | .sliceRange => "slice_range"
+  | .tryPush => "try_push"
+  | .expTooLarge => "exp_too_large"
+  | .viewInvalid => "view_invalid"
+
+def step (st : Unit) : List String → Unit × String
+  | "combine" :: src :: dst :: nc :: nn :: ts =>
+    match nat src, nat dst, nat nc, nat nn with
+    | some src, some dst, some nc, some nn =>
+      match parseSegs nc ts with
+      | some (cores, rest) =>
+        match parseSegs nn rest with
+        | some (nonCores, []) =>
+          match combine src dst cores nonCores with
+          | .error s => (st, "panic " ++ siteStr s)
+          | .ok ps =>
+            let cands := if src = dst then [] else sortedCandidates src dst (inputSegs cores nonCores)
+            let tie := if hasTie cands then "1" else "0"
+            (st, s!"ok tie={tie} cands={cands.length}" ++ String.join (ps.map fun p => " " ++ pathStr p))
+        | _ => (st, "bad-op")
+      | none => (st, "bad-op")
+    | _, _, _, _ => (st, "bad-op")
+  | _ => (st, "bad-op")
+
+def main : IO Unit := Driver.run () step
